@@ -16,6 +16,10 @@ import scipy.stats as sts
 
 import core
 import sentinel
+
+# the tables under lean/VirVerif/Generated are regenerated from the tree under test: a table theorem that no
+# longer holds makes `lake build` fail, which for this property is a broken proof obligation, not a machinery error
+HANDLES_BUILD_FAILURE = True
 import c05
 
 TABLES = sentinel.generate()  # import time: before core.Check.lean() builds
